@@ -87,16 +87,7 @@ class SolEval:
                 return ("ret", self.ev(st.value, env))
             if isinstance(st, ast.Assign):
                 v = self.ev(st.value, env)
-                t = st.targets[0]
-                if isinstance(t, ast.Name):
-                    env[t.id] = v
-                elif isinstance(t, ast.Tuple):
-                    if not isinstance(v, (tuple, list)) or len(v) != len(t.elts):
-                        raise Unsup("unpack")
-                    for e, x in zip(t.elts, v):
-                        env[unparse(e)] = x
-                else:
-                    raise Unsup("assignment target")
+                self.bind(st.targets[0], v, env)
                 continue
             if isinstance(st, ast.AugAssign) and isinstance(st.target, ast.Name):
                 cur = env[st.target.id]
@@ -124,8 +115,53 @@ class SolEval:
                 if r is not None:
                     return r
                 continue
+            if isinstance(st, ast.For) and not st.orelse:
+                it = self.ev(st.iter, env)
+                if not isinstance(it, (list, tuple, range)) or len(it) > 256:
+                    raise Unsup("loop over a non-sequence")
+                for x in it:
+                    self.bind(st.target, x, env)
+                    r = self.block(st.body, env)
+                    if r is not None:
+                        return r
+                continue
+            if isinstance(st, ast.Pass):
+                continue
             raise Unsup("statement " + type(st).__name__)
         return None
+
+    def bind(self, target, value, env):
+        if isinstance(target, ast.Name):
+            env[target.id] = value
+        elif isinstance(target, (ast.Tuple, ast.List)):
+            if not isinstance(value, (tuple, list)) or len(value) != len(target.elts):
+                raise Unsup("unpack")
+            for t, v in zip(target.elts, value):
+                self.bind(t, v, env)
+        elif isinstance(target, ast.Subscript):
+            base = self.ev(target.value, env)
+            k = self.key(self.ev(target.slice, env))
+            if isinstance(base, dict):
+                base[k] = value
+            elif isinstance(base, list) and isinstance(k, int):
+                base[k] = value
+            else:
+                raise Unsup("store target")
+        else:
+            raise Unsup("assignment target")
+
+    @staticmethod
+    def key(v):
+        """python value of an index: integers for constant polynomials, tuples of those"""
+        if isinstance(v, P):
+            if v.is_const() and v.cval().denominator == 1:
+                return int(v.cval())
+            raise Unsup("symbolic index")
+        if isinstance(v, (list, tuple)):
+            return tuple(SolEval.key(x) for x in v)
+        if isinstance(v, (int, str)):
+            return v
+        raise Unsup("index")
 
     # ---------------------------------------------------------------------------------------
     def ev(self, node, env):
@@ -144,12 +180,65 @@ class SolEval:
                     self._cval[node.id] = P.atom("const:" + node.id)   # recursion guard
                     try:
                         v = self.ev(self.consts[node.id], {})
-                        if isinstance(v, P):
+                        if isinstance(v, (P, list, tuple, dict)):
                             self._cval[node.id] = v
                     except Unsup:
                         pass
                 return self._cval[node.id]
+            if node.id in ("range", "len", "min", "max", "tuple", "list", "enumerate", "zip",
+                           "dict", "int", "float", "abs"):
+                return ("builtin", node.id)
+            if node.id in self.fns:
+                return ("fn", node.id)
             raise Unsup("name " + node.id)
+        if isinstance(node, ast.Dict):
+            return {self.key(self.ev(k, env)): self.ev(v, env)
+                    for k, v in zip(node.keys, node.values)}
+        if isinstance(node, (ast.ListComp, ast.GeneratorExp)):
+            out = []
+
+            def rec(k, sub):
+                if k == len(node.generators):
+                    out.append(self.ev(node.elt, sub))
+                    return
+                g = node.generators[k]
+                it = self.ev(g.iter, sub)
+                if not isinstance(it, (list, tuple, range)) or len(it) > 256:
+                    raise Unsup("comprehension over a non-sequence")
+                for x in it:
+                    sub2 = dict(sub)
+                    self.bind(g.target, x if not isinstance(x, int) else asP(x), sub2)
+                    ok = True
+                    for c_ in g.ifs:
+                        t = self.ev(c_, sub2)
+                        if not isinstance(t, bool):
+                            raise Unsup("filter on a non-constant")
+                        ok = ok and t
+                    if ok:
+                        rec(k + 1, sub2)
+            rec(0, dict(env))
+            return out
+        if isinstance(node, ast.Compare) and len(node.ops) == 1:
+            a = self.ev(node.left, env)
+            b = self.ev(node.comparators[0], env)
+            try:
+                a, b = self.key(a), self.key(b)
+            except Unsup:
+                raise Unsup("comparison of non-constants")
+            op = node.ops[0]
+            if isinstance(op, ast.Eq):
+                return a == b
+            if isinstance(op, ast.NotEq):
+                return a != b
+            if isinstance(op, ast.Lt):
+                return a < b
+            if isinstance(op, ast.LtE):
+                return a <= b
+            if isinstance(op, ast.Gt):
+                return a > b
+            if isinstance(op, ast.GtE):
+                return a >= b
+            raise Unsup("comparison")
         if isinstance(node, (ast.Tuple, ast.List)):
             return [self.ev(e, env) for e in node.elts]
         if isinstance(node, ast.UnaryOp):
@@ -163,6 +252,10 @@ class SolEval:
             return self.binop(node.op, self.ev(node.left, env), self.ev(node.right, env))
         if isinstance(node, ast.Attribute):
             base = self.ev(node.value, env)
+            if isinstance(base, P) and len(base.atoms()) == 1 and base == P.atom(
+                    next(iter(base.atoms()))):
+                # attribute of an opaque object handed in (sol.a, fd.d3x): a function symbol
+                return ("meth", next(iter(base.atoms())) + "." + node.attr)
             if isinstance(base, tuple) and base and base[0] == "lib":
                 if node.attr == "pi":
                     return P.atom("pi")
@@ -177,9 +270,19 @@ class SolEval:
             base = self.ev(node.value, env)
             idx = node.slice
             idxs = idx.elts if isinstance(idx, ast.Tuple) else [idx]
+            if isinstance(base, dict):
+                k = self.key(self.ev(idx, env))
+                if k not in base:
+                    raise Unsup(f"key {k!r}")
+                return base[k]
             for i in idxs:
                 c = const_value(i)
-                if c is None or not isinstance(base, list):
+                if c is None:
+                    try:
+                        c = self.key(self.ev(i, env))
+                    except Unsup:
+                        c = None
+                if c is None or not isinstance(base, (list, tuple)) or isinstance(c, tuple):
                     raise Unsup("subscript")
                 base = base[int(c)]
             return base
@@ -238,6 +341,37 @@ class SolEval:
         fsrc = unparse(f)
         args = [self.ev(a, env) for a in node.args]
         kwargs = {k.arg: self.ev(k.value, env) for k in node.keywords if k.arg}
+        if not (isinstance(f, ast.Name) and (f.id in self.overrides or f.id in self.fns)) \
+                and not (isinstance(f, ast.Attribute) and isinstance(f.value, ast.Name)
+                         and (f.value.id in LIBS or f.value.id in self.imports)):
+            fv = self.ev(f, env)
+            if isinstance(fv, tuple) and fv and fv[0] == "meth":
+                return self.fn_atom(fv[1], args)
+            if isinstance(fv, tuple) and fv and fv[0] == "fn":
+                r = self.call(fv[1], args, kwargs)
+                return r[1] if r else None
+            if isinstance(fv, tuple) and fv and fv[0] == "builtin":
+                name = fv[1]
+                if name == "range":
+                    return [asP(i) for i in range(*[self.key(a) for a in args])]
+                if name == "len":
+                    return asP(len(args[0]))
+                if name in ("min", "max"):
+                    vals = [self.key(a) for a in (args[0] if len(args) == 1 else args)]
+                    return asP(min(vals) if name == "min" else max(vals))
+                if name in ("tuple", "list"):
+                    return list(args[0])
+                if name == "enumerate":
+                    return [[asP(i), x] for i, x in enumerate(args[0])]
+                if name == "zip":
+                    return [list(t) for t in zip(*args)]
+                if name == "dict" and not args:
+                    return dict(kwargs)
+                if name in ("int", "float"):
+                    return args[0]
+                if name == "abs":
+                    return self.fn_atom("abs", args)
+                raise Unsup("builtin " + name)
         if isinstance(f, ast.Name) and f.id in self.overrides:
             return self.overrides[f.id]
         if isinstance(f, ast.Name) and f.id in self.fns:
@@ -338,65 +472,45 @@ def two_forms(rep):
 
 
 def component_axes(rep):
-    """Position-based, on values: entry (i, j) of the returned 3x3 array, with every temporary
-    resolved, must contain the second derivative of the perturbation along exactly the axes
-    (i, j) -- and nothing else distinguishes it from the other diagonal (resp. off-diagonal)
-    entries: replacing d_a d_b by one symbol makes all diagonal entries one polynomial and all
+    """Position-based, on values: the function is evaluated (helpers, loops and tables
+    executed; sol.*, fd.d3* kept as function symbols); entry (i, j) of the returned 3x3 array
+    must contain the second derivative of the perturbation along exactly the axes (i, j) --
+    and nothing else distinguishes it from the other diagonal (resp. off-diagonal) entries:
+    replacing d_a d_b by one symbol makes all diagonal entries one polynomial and all
     off-diagonal entries another; the matrix is symmetric."""
-    from ..reading_rules import resolve
-    from ..symexpr import SymEval
-    from .. import symdiff
     S = rep.sources
     rel = f"{SOL}/ICPertFLRW.py"
+    dd_rx = re.compile(r"^fd\.d3([xyz])\(fd\.d3([xyz])\((.*)\)\)$")
     for q in ("gammadown3", "Kdown3"):
         fn = S.function(rel, q)
-        rets = [st for st in ast.walk(fn) if isinstance(st, ast.Return)]
-        if len(rets) != 1:
-            raise AnalysisError(f"{rel}::{q}: single return expected")
-        mat = resolve(fn, rets[0].value)
-        rows = None
-        if isinstance(mat, ast.Call) and unparse(mat.func) in ("np.array", "np.stack") \
-                and mat.args and isinstance(mat.args[0], (ast.List, ast.Tuple)):
-            rows = [r.elts for r in mat.args[0].elts if isinstance(r, (ast.List, ast.Tuple))]
-        if not rows or len(rows) != 3 or any(len(r) != 3 for r in rows):
+        params = [a.arg for a in fn.args.args]
+        ev = SolEval(S, rel, False)
+        try:
+            r = ev.call(q, [P.atom(p_) for p_ in params], {})
+        except Unsup as e:
+            raise AnalysisError(f"{rel}::{q}: cannot be evaluated: {e}")
+        mat = r[1] if r else None
+        if not (isinstance(mat, list) and len(mat) == 3
+                and all(isinstance(row, list) and len(row) == 3 for row in mat)):
             raise AnalysisError(f"{rel}::{q}: the returned 3x3 array was not found")
         vals = {}
         shapes = {"diag": set(), "off": set()}
         for i, a in enumerate("xyz"):
             for j, b in enumerate("xyz"):
-                e = rows[i][j]
+                e = asP(mat[i][j])
                 dd = []
-                for n in ast.walk(e):
-                    if isinstance(n, ast.Call) and re.fullmatch(r"fd\.d3[xyz]", unparse(n.func)) \
-                            and n.args and isinstance(n.args[0], ast.Call) \
-                            and re.fullmatch(r"fd\.d3[xyz]", unparse(n.args[0].func)):
-                        dd.append((unparse(n.func)[-1], unparse(n.args[0].func)[-1]))
-                ok = len(dd) == 1 and sorted(dd[0]) == sorted((a, b))
+                for at in sorted(e.atoms()):
+                    m = dd_rx.match(at)
+                    if m:
+                        dd.append((m.group(1), m.group(2), at))
+                ok = len(dd) == 1 and sorted(dd[0][:2]) == sorted((a, b))
                 rep.check(ok, "component-axes", f"{rel}::{q}::[{a}{b}]",
-                          f"entry ({a}, {b}) is built from the second derivative along {dd}, "
-                          f"it must be along ({a}, {b})", node=rets[0], file=rel)
+                          f"entry ({a}, {b}) is built from the second derivative along "
+                          f"{[d[:2] for d in dd]}, it must be along ({a}, {b})", node=fn,
+                          file=rel)
                 # the same formula up to the axes: evaluate with d_a d_b -> DD
-                import copy
-
-                class T(ast.NodeTransformer):
-                    def visit_Call(self, n):
-                        if re.fullmatch(r"fd\.d3[xyz]", unparse(n.func)) and n.args \
-                                and isinstance(n.args[0], ast.Call) \
-                                and re.fullmatch(r"fd\.d3[xyz]", unparse(n.args[0].func)):
-                            return ast.Name(id="DD", ctx=ast.Load())
-                        return self.generic_visit(n)
-                e2 = T().visit(copy.deepcopy(e))
-                ev = SymEval({}, what=f"{q}[{a}{b}]", opaque_calls=True)
-
-                class Env(dict):
-                    def __missing__(self, k):
-                        return P.atom(k)
-
-                    def __contains__(self, k):
-                        return True
-                try:
-                    v = ev.ev(e2, Env())
-                except AnalysisError:
+                v = e.subs({d[2]: P.atom("DD") for d in dd}) if dd else None
+                if v is not None and any(x.startswith("fd.d3") for x in v.atoms()):
                     v = None
                 vals[(i, j)] = v
                 shapes["diag" if i == j else "off"].add(v)
@@ -404,11 +518,12 @@ def component_axes(rep):
                   f"{rel}::{q}::siblings",
                   "the diagonal (resp. off-diagonal) entries are not the same formula "
                   "under relabelling of the axes", node=fn, file=rel)
-        sym = all(unparse(rows[i][j]) == unparse(rows[j][i]) or vals[(i, j)] == vals[(j, i)]
-                  for i in range(3) for j in range(3))
+        sym = all(asP(mat[i][j]) == asP(mat[j][i]) or (
+            vals[(i, j)] is not None and vals[(i, j)] == vals[(j, i)])
+            for i in range(3) for j in range(3))
         rep.check(sym, "component-axes", f"{rel}::{q}::assembly",
                   "the matrix must be assembled symmetrically in (x, y, z) order",
-                  node=rets[0], file=rel)
+                  node=fn, file=rel)
 
 
 def static_k(rep):
